@@ -68,6 +68,10 @@ def formula_scope(name):
         # path formula (G F p, X G q, (X p) U q, ...): the shapes no CTL rule applies to
         return [(q, g) for q in 'AE' for g in fm.enum_exact(fm.LTL_UN, fm.LTL_BIN, (fm.P, fm.Q), 2)
                 if g[0] in fm.TEMP and fm.temporal_count(g) == 2]
+    if name == 'sib':
+        return fm.ctls_siblings()
+    if name == 'rep':
+        return [(q, g) for q in 'AE' for g in fm.ltl_repeated()[::2]] + fm.ctl_repeated()[::9]
     if name == 'Qg-k3':
         return [(q, g) for q in 'AE' for g in fm.enum_strided(fm.LTL_UN, fm.LTL_BIN, (fm.P, fm.Q), 3, 97)]
     if name == 'nest3':
@@ -125,12 +129,16 @@ def enum_shard(st, shard, nshards, payload):
         objs = [fm.to_lib(f, L) for f in forms]
         rts = [sorted(routes(f)) for f in forms]
         nts = [is_nontrivial(f) for f in forms]
-        for K in scope_iter(n, stride, nshards):
-            idx += 1
-            if idx % nshards != shard:
+        for j, K in enumerate(scope_iter(n, stride, nshards)):
+            # every stride-th structure of THIS scope (S(4)+ are already strided by the decoder),
+            # dealt round-robin to the shards
+            if n < 4:
+                if j % stride:
+                    continue
+                j //= stride
+            if j % nshards != shard:
                 continue
-            if n < 4 and stride > 1 and (idx // nshards) % stride != 0:
-                continue
+            idx += 1 + shard
             M = ref.Model(K)
             naming = NAMINGS[idx % len(NAMINGS)]
             how = idx % 6
@@ -180,23 +188,29 @@ def run(ctx):
         scopes = [(1, 'Qg-k2', 1), (2, 'Qg-k2', 1), (1, 'nest2', 1), (2, 'nest2', 1),
                   (2, 'bool2', 1), (3, 'Qg-k1', 16), (3, 'nest2', 64), (4, 'Qg-k1', 8009),
                   (3, 'Qg-tt', 7), (3, 'Qg-k2', 211), (4, 'Qg-tt', 40009),
-                  (2, 'Qg-k3', 1), (3, 'Qg-k3', 211), (2, 'nest3', 1), (3, 'nest3', 101)]
+                  (2, 'Qg-k3', 1), (3, 'Qg-k3', 211), (2, 'nest3', 1), (3, 'nest3', 101),
+                  (1, 'sib', 1), (2, 'sib', 2), (3, 'sib', 199), (2, 'rep', 4), (3, 'rep', 997)]
         ctx.scopes = ['S(1)+S(2) x Qg-k2 (8648 formulas)', 'S(1)+S(2) x nest2', 'S(2) x bool2',
                       'every 16th of S(3) x Qg-k1', 'every 64th of S(3) x nest2',
                       'every 8009th of S(4) x Qg-k1', 'every 7th of S(3) x Qg-tt (two nested temporal operators)',
                       'every 211th of S(3) x Qg-k2', 'every 40009th of S(4) x Qg-tt',
                       'S(2) and every 211th of S(3) x Qg-k3 (every 97th body with exactly 3 operators)',
-                      'S(2) and every 101st of S(3) x nest3 (224 formulas with quantifier nesting 3)']
+                      'S(2) and every 101st of S(3) x nest3 (224 formulas with quantifier nesting 3)',
+                      'S(1), every 2nd of S(2), every 199th of S(3) x sib (1344 formulas quantifying one non-CTL path formula twice as siblings)',
+                      'every 4th of S(2), every 997th of S(3) x rep (repeated temporal/quantified subformulas under both polarities)']
     else:
         scopes = [(1, 'Qg-k2', 1), (2, 'Qg-k1', 1), (2, 'Qg-k2', 24), (1, 'nest2', 1),
                   (2, 'nest2', 12), (2, 'bool2', 6), (3, 'Qg-k1', 331), (4, 'Qg-k1', 120011),
-                  (3, 'Qg-tt', 401), (2, 'Qg-k3', 24), (3, 'Qg-k3', 3001), (2, 'nest3', 12), (3, 'nest3', 2003)]
+                  (3, 'Qg-tt', 401), (2, 'Qg-k3', 24), (3, 'Qg-k3', 3001), (2, 'nest3', 12), (3, 'nest3', 2003),
+                  (2, 'sib', 36), (3, 'sib', 4001), (2, 'rep', 72), (3, 'rep', 11003)]
         ctx.scopes = ['S(1) x Qg-k2', 'S(2) x Qg-k1', 'every 24th of S(2) x Qg-k2', 'S(1) x nest2',
                       'every 12th of S(2) x nest2', 'every 6th of S(2) x bool2',
                       'every 331st of S(3) and every 120011th of S(4) x Qg-k1',
                       'every 401st of S(3) x Qg-tt (two nested temporal operators)',
                       'every 24th of S(2) and every 3001st of S(3) x Qg-k3 (every 97th body with exactly 3 operators)',
-                      'every 12th of S(2) and every 2003rd of S(3) x nest3 (quantifier nesting 3)']
+                      'every 12th of S(2) and every 2003rd of S(3) x nest3 (quantifier nesting 3)',
+                      'every 36th of S(2), every 4001st of S(3) x sib (1344 formulas quantifying one non-CTL path formula twice as siblings)',
+                      'every 72nd of S(2), every 11003rd of S(3) x rep (repeated subformulas under both polarities)']
     ctx.exhaustive = True
     ctx.assumptions = ['reference semantics vp/ref.py (R-STAR) is the trusted base',
                        'atoms are p,q: exactness under atom names that collide with the '
